@@ -176,13 +176,25 @@ def self_test(run, sess, corrupt, label):
 
 
 ISO_KEYS = ["ka", "kb", "kc"]
+ISO_RULES = [{"name": n, "tag": i + 1} for i, n in enumerate(["own", "pa", "pb", "pc", "pd", "pe"])]
+
+
+def iso_prefix(rng):
+    """management calls before the requests of an isolation / capacity session: the pool is emptied and refilled, or its
+    (one) rule text is installed once more, fully or incrementally"""
+    k = rng.choice(["clearfull", "clearincr", "full", "incr"])
+    steps = []
+    if k.startswith("clear"):
+        steps.append({"op": "update", "update": {"kind": "clear", "rules": [], "names": []}})
+    steps.append({"op": "update", "update": {"kind": "full" if k.endswith("full") else "incr", "rules": ISO_RULES, "names": []}})
+    return steps
 
 
 def iso_req(q, rng, keys, fail=""):
     m = rng.choice(["Execute", "ExecuteConcurrent", "ExecuteMixModel", "ExecuteInverseMixModel", "emMulti", "em",
                     "ExecuteSelectedRules", "ExecuteSelectedRulesConcurrent", "ExecuteDAGModel", "ExecuteWithStopTagDirect",
                     "ExecuteSelectedRulesMixModel", "emSelected"])
-    r = call_for(m, ["own", "pa", "pb", "pc", "pd"], 5)
+    r = call_for(m, ["own", "pa", "pb", "pc", "pd", "pe"], 6)
     if m == "em" and not keys:
         r.update(via="emMulti")
     r.update(q=q, keys=keys, fail=fail, noret=rng.random() < 0.2)
@@ -260,10 +272,17 @@ def check_c17(run):
                            [iso_req(mx + k + 1, rng, ISO_KEYS, "") for k in range(nw)]
                     final = [iso_req(mx + nw + k + 1, rng, ISO_KEYS, "") for k in range(mx)]
                     nst += 1
+                    starve = {"op": "starve", "reqs": reqs, "which": which, "waiters": nw}
+                    script = [starve, {"op": "quiesce"}]
+                    if rng.random() < 0.35:
+                        # the pool is emptied (or its text re-installed) while the waiters wait, and refilled afterwards
+                        k = rng.choice(["clear", "clear", "full", "incr"])
+                        starve["midupdate"] = {"kind": k, "rules": ISO_RULES if k != "clear" else [], "names": []}
+                        if k == "clear":
+                            script.append({"op": "update", "update": {"kind": "full", "rules": ISO_RULES, "names": []}})
+                    script += [{"op": "burst", "reqs": final}, {"op": "quiesce"}]
                     sessions.append({"id": 200000 + nst, "kind": "capacity", "min": mn, "max": mx, "model": rng.randint(1, 4), "rules": [],
-                                     "gated": False, "checkv": False, "gatehooks": False, "timeout": 5,
-                                     "script": [{"op": "starve", "reqs": reqs, "which": which, "waiters": nw}, {"op": "quiesce"},
-                                                {"op": "burst", "reqs": final}, {"op": "quiesce"}]})
+                                     "gated": False, "checkv": False, "gatehooks": False, "timeout": 5, "script": script})
     if getattr(run, "collect", None) is not None:
         run.collect["capacity"] = sessions
         return 0
@@ -310,6 +329,8 @@ def check_c06(run):
                 r["keys"] = sorted(set(r["keys"]))
             script.append({"op": "burst", "reqs": reqs})
         script.append({"op": "quiesce"})
+        if rng.random() < 0.3:
+            script = iso_prefix(rng) + script
         sessions.append({"id": i + 1, "kind": "isolation", "min": rec["min"], "max": rec["max"], "model": rng.randint(1, 4),
                          "rules": [], "gated": True, "checkv": False, "script": script})
     for i in range(80 if quick else 2500):
@@ -321,9 +342,11 @@ def check_c06(run):
             reqs = []
             for k in range(rng.randint(1, 8 if quick else 14)):
                 q += 1
-                reqs.append(iso_req(q, rng, sorted(set(rng.sample(ISO_KEYS + ["kd"], rng.randint(0, 3)))), rng.choice(["", "", "", "boom", "concboom"])))
+                reqs.append(iso_req(q, rng, sorted(set(rng.sample(ISO_KEYS + ["kd"], rng.randint(0, 3)))), rng.choice(["", "", "", "boom", "concboom", "leak", "see", "see"])))
             script.append({"op": "burst", "reqs": reqs})
         script.append({"op": "quiesce"})
+        if rng.random() < 0.3:
+            script = iso_prefix(rng) + script
         sessions.append({"id": 100000 + i, "kind": "isolation", "min": mn, "max": mx, "model": rng.randint(1, 4), "rules": [],
                          "gated": rng.random() < 0.8, "checkv": False, "script": script})
     if getattr(run, "collect", None) is not None:
@@ -449,6 +472,19 @@ def check_c16(run):
         mn = rng.randint(1, 3)
         rec = {"min": mn, "max": mn + rng.randint(1, 3), "ops": [rng.choice(ops) for _ in range(rng.randint(3, 7))]}
         sessions.append(manage_session(100000 + i, rec, rng))
+    # the execution model is changed back and forth (mix <-> sort) while two clients issue requests through the
+    # ...WithSpecifiedEM entry points: whatever model a request meets, it runs exactly the installed / named rules
+    for i in range(25 if quick else 600):
+        mn = rng.randint(1, 2)
+        mx = mn + rng.randint(1, 2)
+        reqs = []
+        for qn in range(rng.randint(40, 120)):
+            r = call_for(rng.choice(["emSelected", "emSelected", "emMulti", "em"]), ["r1", "r2"], 2)
+            r.update(q=qn + 1, keys=[], fail="")
+            reqs.append(r)
+        sessions.append({"id": 300000 + i, "kind": "manage", "min": mn, "max": mx, "model": 1, "rules": V(1), "gated": False, "checkv": True,
+                         "script": [{"op": "emstorm", "reqs": reqs, "flips": 100000}, {"op": "quiesce"}, {"op": "query", "args": UNIVERSE},
+                                    probe(len(reqs), mx, UNIVERSE[:4], 0, rng), {"op": "quiesce"}]})
     if getattr(run, "collect", None) is not None:
         run.collect["manage"] = sessions
         return 0
